@@ -13,6 +13,7 @@ package sim
 import (
 	"fmt"
 	"runtime/debug"
+	"sync"
 	"testing/synctest"
 	"time"
 )
@@ -74,6 +75,14 @@ type Task struct {
 	// Daemon tasks (servers) do not keep a run alive: once every non-daemon task is done and no
 	// daemon can make progress any more, the run is complete.
 	Daemon bool
+	// gid identifies the goroutine that runs the task (curG).
+	gid uintptr
+	// Adopted: a goroutine that the program under test started itself (go text.Close(), the
+	// interrupter of a TLS handshake, a watcher of a context) and that touched the simulated
+	// world. From its first scheduling point on it is a daemon task like any other: it runs only
+	// when the kernel picks it. The kernel cannot see it end; an adopted task that never parks
+	// again counts as finished.
+	Adopted bool
 }
 
 // Verdict of a kernel run.
@@ -156,8 +165,14 @@ type Kernel struct {
 	// pokeCh wakes the kernel out of such a wait the instant a goroutine that is no task acts on
 	// the simulated network (see Poke).
 	pokeCh chan struct{}
-	Contended          int // times a task was found parked on a held lock
-	MaxEnabled         int
+	// Adopt switches the adoption of foreign goroutines on (see Task.Adopted).
+	Adopt      bool
+	adoptMu    sync.Mutex
+	adoptQ     []*Task
+	selfG      uintptr
+	Adoptions  int
+	Contended  int // times a task was found parked on a held lock
+	MaxEnabled int
 	// OnStep, if set, is called by the kernel before every choice (invariants).
 	OnStep func(k *Kernel)
 }
@@ -265,6 +280,7 @@ func (k *Kernel) newTask(name string, fn func()) *Task {
 
 func (t *Task) main() {
 	defer t.finish()
+	t.setGid(curG())
 	t.k.Park(t, Ready, 0)
 	t.fn()
 }
@@ -275,6 +291,9 @@ func (t *Task) finish() {
 	}
 	t.done()
 }
+
+//go:norace
+func (t *Task) setGid(g uintptr) { t.gid = g }
 
 //go:norace
 func (t *Task) setPanic(r any, st string) { t.Panic = r; t.PanicStack = st }
@@ -311,11 +330,41 @@ func (k *Kernel) prepPark(tp **Task, c Cond, point int) bool {
 	}
 	t := *tp
 	if t == nil {
-		t = k.running
+		g := curG()
+		switch r := k.running; {
+		case r != nil && r.gid == g:
+			t = r
+		case g == k.selfG:
+			return false // the kernel's own goroutine
+		default:
+			// a task that went on by itself after blocking outside the kernel's knowledge, or a
+			// goroutine the kernel has never seen
+			for i := 0; i < k.ntasks; i++ {
+				if k.tasks[i].gid == g && k.tasks[i].state != tDone {
+					t = k.tasks[i]
+				}
+			}
+			if t == nil {
+				if !k.Adopt {
+					return false
+				}
+				t = &Task{ID: -1, Name: "adopted", k: k, state: tParked, cond: c, point: point, Daemon: true, Adopted: true, gid: g}
+				t.parkInit()
+				t.prepare()
+				k.adoptMu.Lock()
+				k.adoptQ = append(k.adoptQ, t)
+				k.adoptMu.Unlock()
+				*tp = t
+				k.pokeNow()
+				return true
+			}
+			if t.state != tExternal {
+				// a known task that is neither running nor external cannot be calling: identity
+				// clash (a goroutine that ended and whose g was reused) — leave it alone
+				return false
+			}
+		}
 		*tp = t
-	}
-	if t == nil {
-		return false
 	}
 	t.cond = c
 	t.point = point
@@ -342,11 +391,47 @@ func (k *Kernel) Sleep(d time.Duration) {
 //go:norace
 func (k *Kernel) allDone() bool {
 	for i := 0; i < k.ntasks; i++ {
-		if k.tasks[i].state != tDone {
+		if t := k.tasks[i]; t.state != tDone && !(t.Adopted && t.state != tParked) {
 			return false
 		}
 	}
 	return true
+}
+
+// drainAdopted takes the goroutines that asked for adoption since the last step into the task
+// table (they are parked on the condition of the operation they were about to perform).
+func (k *Kernel) drainAdopted() {
+	if !k.Adopt {
+		return
+	}
+	k.adoptMu.Lock()
+	q := k.adoptQ
+	k.adoptQ = nil
+	k.adoptMu.Unlock()
+	for _, t := range q {
+		k.admit(t)
+	}
+}
+
+//go:norace
+func (k *Kernel) admit(t *Task) {
+	if k.ntasks >= maxTasks {
+		panic("sim: too many tasks")
+	}
+	t.ID = k.ntasks
+	t.Name = "adopted-" + string(rune('a'+k.Adoptions%26))
+	k.prio[k.ntasks] = k.rng.Intn(1 << 20)
+	k.tasks[k.ntasks] = t
+	k.ntasks++
+	k.Adoptions++
+}
+
+// pokeNow wakes a waiting kernel regardless of who is calling.
+func (k *Kernel) pokeNow() {
+	select {
+	case k.pokeCh <- struct{}{}:
+	default:
+	}
 }
 
 // mainDone: every non-daemon task has finished.
@@ -437,8 +522,10 @@ func (k *Kernel) best(n int) int {
 // Run drives all tasks until they are done, nothing can ever happen again (Quiescent), or a bound
 // is hit. On anything but AllDone the caller should call Abort to unwind the tasks.
 func (k *Kernel) Run() Verdict {
+	k.setSelf(curG())
 	for {
 		k.settle()
+		k.drainAdopted()
 		if k.allDone() {
 			return AllDone
 		}
@@ -488,7 +575,7 @@ func (k *Kernel) Run() Verdict {
 			if k.MaxIdleJump > 0 && d > k.MaxIdleJump {
 				return Quiescent
 			}
-			time.Sleep(time.Duration(d))
+			k.idleWait(time.Duration(d))
 			continue
 		}
 		t := k.choose(n)
@@ -498,7 +585,7 @@ func (k *Kernel) Run() Verdict {
 
 // idleWait lets d of virtual time pass, or less when a foreign goroutine pokes the kernel.
 func (k *Kernel) idleWait(d time.Duration) {
-	if !k.ForeignTimers {
+	if !k.ForeignTimers && !k.Adopt {
 		time.Sleep(d)
 		return
 	}
@@ -525,6 +612,9 @@ func (k *Kernel) Poke() {
 
 //go:norace
 func (k *Kernel) foreignQuiet() bool { return k.running != nil || k.aborting }
+
+//go:norace
+func (k *Kernel) setSelf(g uintptr) { k.selfG = g }
 
 //go:norace
 func (k *Kernel) step(t *Task) {
@@ -620,7 +710,7 @@ func (k *Kernel) Abort() (leaked int) {
 		time.Sleep(time.Microsecond)
 	}
 	for i := 0; i < k.ntasks; i++ {
-		if !k.tasks[i].IsDone() {
+		if !k.tasks[i].IsDone() && !k.tasks[i].Adopted {
 			leaked++
 		}
 	}
